@@ -3,7 +3,7 @@ from sim.conf_scenario import ConfScenario
 
 PROP = "C20"
 LEVEL = "exploration"
-RUNS = {"quick": 2500, "thorough": 100000}
+RUNS = {"quick": 6000, "thorough": 100000}
 BUDGET_S = {"quick": 50, "thorough": 840}
 CHUNK = 50
 RULE = ("One evaluation = one seeded history of `gwf config set/unset/get` (fresh incarnation each, from the project root, a sub-directory, or elsewhere with -f) over keys incl. dotted keys sharing prefixes and look-alike namespaces, values incl. digits, boolean words, empty, unicode, against M_conf (file content == explicitly set keys, get == set value coerced by the statement's rule or default or '<not set>'), interleaved with effect probes `gwf [-b X] [-v L] [--no-color|--use-color] status|run` observed at the seams: which scheduler executables run / which address is connected to (backend = flag over config over default), sacct called iff accounting enabled, log directives per log_mode, debug lines iff level debug (flag over config over default), click's tty hack iff colours disabled (flag over config over NO_COLOR).")
